@@ -59,44 +59,47 @@ fn key() -> u8 {
     k
 }
 
-fn ins(t: &mut T, m: &mut Model) {
+fn ins<C: Fn(&u8, &u8) -> Ordering>(t: &mut SplayTree<u8, u8, C>, m: &mut Model) {
     let (k, v): (u8, u8) = (key(), kani::any());
     let r = t.insert(k, v);
     assert!(r == m.insert(k, v), "insert returns the replaced value");
     assert!(t.len() == m.len(), "len after insert");
 }
-fn rem(t: &mut T, m: &mut Model) {
+fn rem<C: Fn(&u8, &u8) -> Ordering>(t: &mut SplayTree<u8, u8, C>, m: &mut Model) {
     let k = key();
     let r = t.remove(&k);
     assert!(r == m.remove(k), "remove returns the removed value");
     assert!(t.len() == m.len(), "len after remove");
 }
 
-fn q_get(t: &T, m: &Model) {
+fn q_get<C: Fn(&u8, &u8) -> Ordering>(t: &SplayTree<u8, u8, C>, m: &Model) {
     let k = key();
-    assert!(t.get(&k).copied() == m.get(k), "get agrees with the reference map");
-    assert!(t.contains(&k) == m.get(k).is_some(), "contains agrees");
+    if kani::any() {
+        assert!(t.get(&k).copied() == m.get(k), "get agrees with the reference map");
+    } else {
+        assert!(t.contains(&k) == m.get(k).is_some(), "contains agrees with the reference map");
+    }
     kani::cover!(m.get(k).is_some(), "get: hit");
     kani::cover!(m.get(k).is_none() && m.len() > 0, "get: miss in a non-empty tree");
 }
-fn q_next(t: &T, m: &Model) {
+fn q_next<C: Fn(&u8, &u8) -> Ordering>(t: &SplayTree<u8, u8, C>, m: &Model) {
     let k = key();
     assert!(t.next(&k).map(|(a, b)| (*a, *b)) == m.next(k), "next is the successor of the reference map");
     kani::cover!(m.next(k).is_some() && m.get(k).is_none(), "next of an absent key");
 }
-fn q_prev(t: &T, m: &Model) {
+fn q_prev<C: Fn(&u8, &u8) -> Ordering>(t: &SplayTree<u8, u8, C>, m: &Model) {
     let k = key();
     assert!(t.prev(&k).map(|(a, b)| (*a, *b)) == m.prev(k), "prev is the predecessor of the reference map");
     kani::cover!(m.prev(k).is_some() && m.get(k).is_none(), "prev of an absent key");
 }
-fn q_minmax(t: &T, m: &Model) {
+fn q_minmax<C: Fn(&u8, &u8) -> Ordering>(t: &SplayTree<u8, u8, C>, m: &Model) {
     assert!(t.min().copied() == m.min(), "min agrees");
     assert!(t.max().copied() == m.max(), "max agrees");
     assert!(t.len() == m.len() && t.is_empty() == (m.len() == 0), "len agrees");
     kani::cover!(m.len() >= 2 && m.min() != m.max(), "at least two keys");
 }
 /// structural: the nodes reachable from the root are exactly the reference keys, in BST order
-fn q_shape(t: &T, m: &Model) {
+fn q_shape<C: Fn(&u8, &u8) -> Ordering>(t: &SplayTree<u8, u8, C>, m: &Model) {
     let mut cnt = 0usize;
     let ok = walk(t.root_ref().as_deref(), 0, KMAX, &mut cnt, m, 4);
     assert!(ok, "tree is a binary search tree holding exactly the reference entries");
@@ -117,7 +120,7 @@ fn walk(n: Option<&Node<u8, u8>>, lo: u8, hi: u8, cnt: &mut usize, m: &Model, fu
 }
 /// reference stability: a `&K` / `&V` handed out by a lookup still denotes the same element after
 /// further (self-restructuring) lookups
-fn q_refstab(t: &T, m: &Model) {
+fn q_refstab<C: Fn(&u8, &u8) -> Ordering>(t: &SplayTree<u8, u8, C>, m: &Model) {
     let k = key();
     let held_k = t.find_key(&k);
     let held_v = t.get(&k);
@@ -136,47 +139,51 @@ fn q_refstab(t: &T, m: &Model) {
     kani::cover!(held_k.is_some() && a != k && b != k, "held reference, other keys looked up");
 }
 /// consuming iteration, forward / backward / mixed: strictly increasing, exactly the reference entries
-fn q_iter(t: T, m: &Model) {
+fn q_iter<C: Fn(&u8, &u8) -> Ordering>(t: SplayTree<u8, u8, C>, m: &Model) {
     let n = m.len();
     let mut it = t.into_iter();
     assert!(it.size_hint() == (n, Some(n)), "size_hint is the number of entries");
     let mut mm = *m;
-    // KMAX = 4 pulls, direction chosen per pull
-    let mut i = 0;
-    while i < 4 {
-        let fwd: bool = kani::any();
-        let got = if fwd { it.next() } else { it.next_back() };
-        let want = if fwd { mm.min() } else { mm.max() };
-        match (got, want) {
-            (None, None) => {}
-            (Some((k, v)), Some(w)) => {
-                assert!(k == w && Some(v) == mm.get(w), "iteration yields the smallest (largest) remaining entry");
-                mm.remove(w);
+    // KMAX = 4 pulls, direction chosen per pull (hand-unrolled)
+    macro_rules! pull {
+        () => {
+            let fwd: bool = kani::any();
+            let got = if fwd { it.next() } else { it.next_back() };
+            let want = if fwd { mm.min() } else { mm.max() };
+            match (got, want) {
+                (None, None) => {}
+                (Some((k, v)), Some(w)) => {
+                    assert!(k == w && Some(v) == mm.get(w), "iteration yields the smallest (largest) remaining entry");
+                    mm.remove(w);
+                }
+                _ => assert!(false, "iterator and reference disagree on exhaustion"),
             }
-            _ => assert!(false, "iterator and reference disagree on exhaustion"),
-        }
-        i += 1;
+        };
     }
+    pull!();
+    pull!();
+    pull!();
+    pull!();
     assert!(it.next().is_none() && it.next_back().is_none(), "exhausted after all entries");
     std::mem::forget(it);
 }
 
 macro_rules! seq {
-    ($name:ident, [$($op:ident),*], consume $q:ident) => {
+    ($name:ident, $u:expr, [$($op:ident),*], consume $q:ident) => {
         #[kani::proof]
-        #[kani::unwind(5)]
+        #[kani::unwind($u)]
         fn $name() {
-            let mut t = new_tree();
+            let mut t = new_tree_generic();
             let mut m = Model::new();
             $( $op(&mut t, &mut m); )*
             $q(t, &m);
         }
     };
-    ($name:ident, [$($op:ident),*], $q:ident) => {
+    ($name:ident, $u:expr, [$($op:ident),*], $q:ident) => {
         #[kani::proof]
-        #[kani::unwind(5)]
+        #[kani::unwind($u)]
         fn $name() {
-            let mut t = new_tree();
+            let mut t = new_tree_generic();
             let mut m = Model::new();
             $( $op(&mut t, &mut m); )*
             $q(&t, &m);
@@ -186,30 +193,30 @@ macro_rules! seq {
 }
 
 // two updates
-seq!(sp_ii_get, [ins, ins], q_get);
-seq!(sp_ii_next, [ins, ins], q_next);
-seq!(sp_ii_prev, [ins, ins], q_prev);
-seq!(sp_ii_minmax, [ins, ins], q_minmax);
-seq!(sp_ii_shape, [ins, ins], q_shape);
-seq!(sp_ii_refstab, [ins, ins], q_refstab);
-seq!(sp_ii_iter, [ins, ins], consume q_iter);
-seq!(sp_ir_get, [ins, rem], q_get);
-seq!(sp_ir_shape, [ins, rem], q_shape);
+seq!(sp_ii_get, 3, [ins, ins], q_get);
+seq!(sp_ii_next, 3, [ins, ins], q_next);
+seq!(sp_ii_prev, 3, [ins, ins], q_prev);
+seq!(sp_ii_minmax, 3, [ins, ins], q_minmax);
+seq!(sp_ii_shape, 3, [ins, ins], q_shape);
+seq!(sp_ii_refstab, 3, [ins, ins], q_refstab);
+seq!(sp_ii_iter, 3, [ins, ins], consume q_iter);
+seq!(sp_ir_get, 3, [ins, rem], q_get);
+seq!(sp_ir_shape, 3, [ins, rem], q_shape);
 // three updates
-seq!(sp_iii_get, [ins, ins, ins], q_get);
-seq!(sp_iii_next, [ins, ins, ins], q_next);
-seq!(sp_iii_prev, [ins, ins, ins], q_prev);
-seq!(sp_iii_minmax, [ins, ins, ins], q_minmax);
-seq!(sp_iii_shape, [ins, ins, ins], q_shape);
-seq!(sp_iii_refstab, [ins, ins, ins], q_refstab);
-seq!(sp_iii_iter, [ins, ins, ins], consume q_iter);
-seq!(sp_iir_get, [ins, ins, rem], q_get);
-seq!(sp_iir_next, [ins, ins, rem], q_next);
-seq!(sp_iir_shape, [ins, ins, rem], q_shape);
-seq!(sp_iri_shape, [ins, rem, ins], q_shape);
-seq!(sp_iri_get, [ins, rem, ins], q_get);
-seq!(sp_iiri_shape, [ins, ins, rem, ins], q_shape);
-seq!(sp_iiir_shape, [ins, ins, ins, rem], q_shape);
-seq!(sp_iiir_get, [ins, ins, ins, rem], q_get);
-seq!(sp_iiii_shape, [ins, ins, ins, ins], q_shape);
-seq!(sp_iiii_refstab, [ins, ins, ins, ins], q_refstab);
+seq!(sp_iii_get, 4, [ins, ins, ins], q_get);
+seq!(sp_iii_next, 4, [ins, ins, ins], q_next);
+seq!(sp_iii_prev, 4, [ins, ins, ins], q_prev);
+seq!(sp_iii_minmax, 4, [ins, ins, ins], q_minmax);
+seq!(sp_iii_shape, 4, [ins, ins, ins], q_shape);
+seq!(sp_iii_refstab, 4, [ins, ins, ins], q_refstab);
+seq!(sp_iii_iter, 4, [ins, ins, ins], consume q_iter);
+seq!(sp_iir_get, 3, [ins, ins, rem], q_get);
+seq!(sp_iir_next, 3, [ins, ins, rem], q_next);
+seq!(sp_iir_shape, 3, [ins, ins, rem], q_shape);
+seq!(sp_iri_shape, 3, [ins, rem, ins], q_shape);
+seq!(sp_iri_get, 3, [ins, rem, ins], q_get);
+seq!(sp_iiri_shape, 4, [ins, ins, rem, ins], q_shape);
+seq!(sp_iiir_shape, 4, [ins, ins, ins, rem], q_shape);
+seq!(sp_iiir_get, 4, [ins, ins, ins, rem], q_get);
+seq!(sp_iiii_shape, 5, [ins, ins, ins, ins], q_shape);
+seq!(sp_iiii_refstab, 5, [ins, ins, ins, ins], q_refstab);
